@@ -133,6 +133,14 @@ impl TrustedOrigins {
     }
 }
 
+#[cfg(biscuit_auth_verif)]
+impl TrustedOrigins {
+    /// verification hook: the trusted block ids
+    pub fn verif_ids(&self) -> Vec<usize> {
+        self.0.inner.iter().cloned().collect()
+    }
+}
+
 impl FromIterator<usize> for TrustedOrigins {
     fn from_iter<T: IntoIterator<Item = usize>>(iter: T) -> Self {
         Self(iter.into_iter().collect())
